@@ -67,6 +67,7 @@ PROPS.update({
 PROPS['C10'] = _e2e(['store', 'mix'], ['C10'], ['outcome', 'ncalls'])
 PROPS['C10']['e2e'][0]['faults'] = True
 PROPS['C10']['e2e'][1]['faults'] = True
+PROPS['C10']['e2e'].append(dict(profile='conc', n_quick=500, n_thorough=5000, faults=True))   # stale-while-revalidate with failing origins: background faults
 PROPS['C10']['rule'] = E2E_RULE + '; every generated history is run twice more with 1-4 store operations failing (error; for Get also undecodable bytes, the JSON text [null], the first half of the stored bytes) at seeded positions: monitor mon_C10 only (no panic, a definite outcome, an error only when an origin call of the exchange failed)'
 
 for _b in ('fs', 'fsenc', 'fsreopen'):
